@@ -1,6 +1,6 @@
 (* Dispatch.v -- the single entry point evaluated by both execution paths
    (vm_compute inside Coq, and the extracted OCaml driver).  Definitions only. *)
-From NasimV Require Export Wire.
+From NasimV Require Export Wire Solve.
 
 Definition do_run (sc : scenario) (m : modes) (ops : list op) : sx :=
   L [x_bool (wf_scenario sc); x_list (x_opout m) (run sc m ops)].
@@ -129,6 +129,11 @@ Definition dispatch (cmd : sx) : sx :=
                              | _ => None end) segs with
       | Some sc', Some gs => x_list (fun g => x_bool (ok_C05_history sc' (fst g) (snd g))) gs
       | _, _ => bad
+      end
+  | L [I 15; sc] =>
+      match d_scenario sc with
+      | Some sc' => L [x_bool (solvable sc'); x_list x_action (plan sc'); x_bool (wf_scenario sc')]
+      | None => bad
       end
   | _ => bad
   end.
